@@ -22,6 +22,7 @@ from .common import (
     MAGIC_NOWIKI_CHAR,
     MAGIC_SQUOTE_CHAR,
     URL_STARTS,
+    is_positional_name,
     nowiki_quote,
 )
 from .parserfns import PARSER_FUNCTIONS
@@ -652,9 +653,8 @@ class TemplateNode(WikiNode):
                             parameter_value = parameter[
                                 equal_sign_index + 1 :
                             ].lstrip()
-                            if (
-                                parameter_name.isdecimal()
-                                and int(parameter_name) > 0
+                            if is_positional_name(
+                                parameter_name
                             ):  # value contains "="
                                 parameter_name = int(parameter_name)
                                 is_named = False
